@@ -30,6 +30,7 @@ type World struct {
 	contractFiles []string
 	loadSeconds float64
 	allFuncs    map[*ssa.Function]bool
+	nonNilGlobals map[*ssa.Global]bool
 }
 
 func (W *World) contractError(cl *Clause, err error) {
